@@ -178,6 +178,22 @@ func runC11(c *core.Case) {
 		ids = append(ids, sb)
 		c.Tag("high-bit-sibling")
 	}
+	radix := false
+	if r.P(0.03) && !square {
+		// vertical (index, zoom) pairs that a key packed as index*35+zoom (radix one too small for zooms 0..35) confuses:
+		// (f, 35) and (f+1, 0) on the same tile
+		f := []int64{-1, -2}[r.Intn(2)]
+		t := ids[0]
+		a, b := t, t
+		a.V, a.F = 35, f
+		b.V, b.F = 0, f+1
+		if r.Bool() {
+			a, b = b, a
+		}
+		ids = append(ids, a, b)
+		radix = true
+		c.Tag("radix-neighbour-vertical-pairs")
+	}
 	cornerShape := r.P(0.15) && !square
 	if cornerShape {
 		dh, dv := r.Range(0, 2), r.Range(0, 2)
@@ -220,10 +236,27 @@ func runC11(c *core.Case) {
 			V = H
 		}
 	}
+	if radix && V > 3 { // the list holds a vertical zoom 0 voxel: keep its refinement small
+		V = r.Range(0, 3)
+	}
+	veryLong := !square && !cornerShape && !radix && (r.P(0.0003) || (c.Tier == "thorough" && r.P(0.0003)))
+	if veryLong { // 2^15 .. 2^17 + 3 IDs at one zoom pair, converted at their own zooms; a repeated ID far from its twin
+		b0 := ids[0]
+		H, V = b0.H, b0.V
+		n := veryLongLen(r)
+		ids = ids[:1]
+		for len(ids) < n {
+			ids = append(ids, ref.ID{H: b0.H, X: r.I64n(pow2(b0.H)), Y: r.I64n(pow2(b0.H)), V: b0.V, F: r.Range(-pow2(b0.V), pow2(b0.V)-1)})
+		}
+		ids[n-3] = ids[0]
+		c.Tag("very-long-list")
+	}
 	in := ref.Exts(ids)
 	inCopy := copyStrings(in)
 	var obs []string
-	c.Desc = func() any { return map[string]any{"ids": in, "outputHZoom": H, "outputVZoom": V, "observed": obs} }
+	c.Desc = func() any {
+		return map[string]any{"ids": trunc(in, 40), "outputHZoom": H, "outputVZoom": V, "observed": obs}
+	}
 	keyStrings(c, in)
 	c.KI(H, V)
 	for _, a := range ids {
